@@ -269,3 +269,47 @@ pub fn recovered_then_write(clock0: u64, recovered: redis_sim::replication::stat
         (d.value.timestamp, on_peer.get().map(|s| s.as_bytes()[0]))
     })
 }
+
+fn bulk_byte(r: &redis_sim::redis::RespValue) -> Option<u8> {
+    match r { redis_sim::redis::RespValue::BulkString(Some(b)) => Some(if b.is_empty() { 0 } else { b[0] }), _ => None }
+}
+/// real actor: both deltas through the mailbox, then what it serves for GET k / HGET k f / HGET k g and its snapshot
+pub fn glue_apply(first: Option<redis_sim::replication::state::ReplicatedValue>, second: redis_sim::replication::state::ReplicatedValue)
+    -> (Option<redis_sim::replication::state::ReplicatedValue>, Option<u8>, Option<u8>, Option<u8>, bool) {
+    use redis_sim::production::ReplicatedShardActor;
+    use redis_sim::redis::{Command, SDS};
+    use redis_sim::replication::config::ConsistencyLevel;
+    use redis_sim::replication::lattice::ReplicaId;
+    use redis_sim::replication::state::ReplicationDelta;
+    let rt = rt();
+    rt.block_on(async move {
+        let h = ReplicatedShardActor::spawn(ReplicaId(1), ConsistencyLevel::Eventual, 0);
+        if let Some(v) = first { let src = v.timestamp.replica_id; h.apply_remote_delta(ReplicationDelta::new("k".to_string(), v, src)); }
+        let src = second.timestamp.replica_id;
+        h.apply_remote_delta(ReplicationDelta::new("k".to_string(), second, src));
+        let sv = bulk_byte(&h.execute_readonly(Command::Get("k".to_string())).await);
+        let fv = bulk_byte(&h.execute_readonly(Command::HGet("k".to_string(), SDS::from_str("f"))).await);
+        let gv = bulk_byte(&h.execute_readonly(Command::HGet("k".to_string(), SDS::from_str("g"))).await);
+        let snap = h.get_snapshot().await;
+        (snap.get("k").cloned(), sv, fv, gv, false)
+    })
+}
+/// real actor: clock brought to `clock0`, the command through Execute, then SET k n: the time of that write's stamp
+pub fn clock_after_command(clock0: u64, which: u8) -> u64 {
+    use redis_sim::production::ReplicatedShardActor;
+    use redis_sim::redis::{Command, SDS};
+    use redis_sim::replication::config::ConsistencyLevel;
+    use redis_sim::replication::lattice::{LamportClock, ReplicaId};
+    use redis_sim::replication::state::{ReplicatedValue, ReplicationDelta};
+    let rt = rt();
+    rt.block_on(async move {
+        let h = ReplicatedShardActor::spawn(ReplicaId(1), ConsistencyLevel::Eventual, 0);
+        if clock0 > 0 {
+            let c = LamportClock { time: clock0 - 1, replica_id: ReplicaId(2) };
+            h.apply_remote_delta(ReplicationDelta::new("z".to_string(), ReplicatedValue::with_value(SDS::from_str("z"), c), ReplicaId(2)));
+        }
+        let _ = h.execute(crate::scenarios::c08::command_of(which)).await;
+        let (_r, d) = h.execute(Command::set("k".to_string(), SDS::from_str("n"))).await;
+        d.expect("SET produced no delta").value.timestamp.time
+    })
+}
